@@ -15,7 +15,7 @@ def one(name):
         p = subprocess.run(["git","apply",f"{d}/patch.diff"],cwd=wt,capture_output=True,text=True)
         if p.returncode != 0:
             return name, None, "PATCH DOES NOT APPLY"
-        p = subprocess.run(["/verif/bin/spokcheck","-property","all","-repo",wt,"-no-evidence"],capture_output=True,text=True)
+        p = subprocess.run([os.environ.get("SPOKCHECK_BIN","/verif/bin/spokcheck"),"-property","all","-repo",wt,"-no-evidence"],capture_output=True,text=True)
         fired = {}
         cur = None
         for l in p.stdout.splitlines():
